@@ -230,9 +230,10 @@ CanonL(g, x) == [t |-> IF IsLeaf(g, x) THEN g.tx[x] ELSE 0, l |-> IF g.par[x] = 
 SameTree(g, h) == g.n = h.n /\ CanonL(g, g.seed) = CanonL(h, h.seed)
 
 \* final clauses of a finished model state; gm = the gene -> species assignment the mapping argument holds NOW
-FinalFails(s, gm) ==
+\* and sp the species tree argument as it is NOW
+FinalFails(s, gm, sp) ==
     CASE s.sim \in {"bd", "fast", "upb"} -> BDFails(s.out, s.N, 0)
       [] s.sim = "king" -> KingFails(s.out, s.N, 0)
-      [] s.sim = "cc" -> CCFails(s.out, s.sp, [x \in 1..s.out.n |-> IF x <= Len(gm) THEN gm[x] ELSE 0], 0)
+      [] s.sim = "cc" -> CCFails(s.out, sp, [x \in 1..s.out.n |-> IF x <= Len(gm) THEN gm[x] ELSE 0], 0)
                          \o KingFails(s.out, Len(gm), 0)
 =============================================================================
